@@ -656,9 +656,14 @@ func check(spec *propSpec, b *build) int {
 			regressed++
 		}
 	}
-	// 2. The search.
+	// 2. The search (preceded by the determinism self-test of the simulator).
 	if regressed == 0 {
 		spec.search(spec, b, a)
+		if len(a.harness) == 0 {
+			if msg := runSelfTest(spec, b, a); msg != "" {
+				a.harness = append(a.harness, msg)
+			}
+		}
 	}
 	if len(a.harness) > 0 {
 		fmt.Fprintf(os.Stderr, "simcheck: harness trouble (exit 2, no verdict):\n%s\n", strings.Join(a.harness, "\n"))
